@@ -24,6 +24,13 @@ pub trait Hooks: Send + Sync {
     /// Called by `Condvar::wait` after the real mutex has been released. Must return only once the
     /// caller has been notified and may re-acquire `mutex`.
     fn wait(&self, condvar: usize, mutex: usize);
+    /// Called by `Condvar::wait_timeout` after the real mutex has been released. Must return once the
+    /// caller has been notified (`false`) or once the scheduler decides that the time-out has elapsed
+    /// (`true`), and the caller may re-acquire `mutex`.
+    fn wait_timeout(&self, condvar: usize, mutex: usize) -> bool {
+        self.wait(condvar, mutex);
+        false
+    }
     /// Called before notifying `condvar`.
     fn notify(&self, condvar: usize, all: bool);
     /// Called before an atomic load (`store == false`) or store (`store == true`).
@@ -181,6 +188,57 @@ impl Condvar {
         }
     }
 
+    pub fn wait_timeout<'a, T>(
+        &self,
+        mut guard: MutexGuard<'a, T>,
+        dur: std::time::Duration,
+    ) -> LockResult<(MutexGuard<'a, T>, WaitTimeoutResult)> {
+        let mutex = guard.mutex;
+        let std_guard = guard.inner.take().unwrap();
+        match hooks() {
+            None => match self.inner.wait_timeout(std_guard, dur) {
+                Ok((g, r)) => Ok((
+                    MutexGuard {
+                        mutex,
+                        inner: Some(g),
+                    },
+                    WaitTimeoutResult(r.timed_out()),
+                )),
+                Err(e) => {
+                    let (g, r) = e.into_inner();
+                    Err(PoisonError::new((
+                        MutexGuard {
+                            mutex,
+                            inner: Some(g),
+                        },
+                        WaitTimeoutResult(r.timed_out()),
+                    )))
+                }
+            },
+            Some(h) => {
+                // As in `wait`; whether the time-out elapses first is the scheduler's decision.
+                drop(std_guard);
+                let timed_out = WaitTimeoutResult(h.wait_timeout(self.id, mutex.id));
+                match mutex.inner.lock() {
+                    Ok(g) => Ok((
+                        MutexGuard {
+                            mutex,
+                            inner: Some(g),
+                        },
+                        timed_out,
+                    )),
+                    Err(e) => Err(PoisonError::new((
+                        MutexGuard {
+                            mutex,
+                            inner: Some(e.into_inner()),
+                        },
+                        timed_out,
+                    ))),
+                }
+            }
+        }
+    }
+
     pub fn notify_all(&self) {
         if let Some(h) = hooks() {
             h.notify(self.id, true);
@@ -193,6 +251,16 @@ impl Condvar {
             h.notify(self.id, false);
         }
         self.inner.notify_one();
+    }
+}
+
+/// Stand-in for `std::sync::WaitTimeoutResult` (which cannot be constructed outside of std).
+#[derive(Clone, Copy, Debug, PartialEq, Eq)]
+pub struct WaitTimeoutResult(bool);
+
+impl WaitTimeoutResult {
+    pub fn timed_out(&self) -> bool {
+        self.0
     }
 }
 
